@@ -58,6 +58,19 @@ def rule_unwrap(ctx, rep):
                     pl = o2["rv"]["place"] if o2.get("kind") == "rvalue" and o2["rv"]["k"] in ("ref", "rawptr") else None
                     if pl and pl["p"] and isinstance(pl["p"][-1], dict) and pl["p"][-1].get("adt") == F.inner_path and F.data_field and pl["p"][-1].get("f") == F.data_field[0]:
                         moved = True
+            if not moved:
+                # through a checked helper's `Ok(value)` (`match take_if_unique(this.0) { Ok(data) => data, .. }`): on every
+                # returning path (path-sensitive summary of the inlined body) the result is the block's payload field
+                from .. import symx as _sx
+
+                cs = _sx.path_cases(F, b)
+                if cs:
+                    def is_data(e):
+                        while e[0] in ("cast", "addr"):
+                            e = e[2] if e[0] == "cast" else e[1]
+                        return e[0] == "proj" and e[2] and e[2][-1] == F.data_field[1]
+
+                    moved = all(is_data(v) for _c, v in cs)
             if moved:
                 rep.ok("R-UNWRAP", b["key"] + "/moves-data", cfg=tag)
             else:
